@@ -79,11 +79,6 @@ let with_owner r o =
   { kind = r.kind; parent = r.parent; kids = r.kids; prev = r.prev; next =
     r.next; owner = o; sname = r.sname }
 
-(** val setf : heap -> id -> (nrec -> nrec) -> heap **)
-
-let setf h i g =
-  set_nodes h (upd h.nodes i (g (h.nodes i)))
-
 type res =
 | ROk of heap
 | RRaise of exn * heap
@@ -234,6 +229,23 @@ let remove_from_caches h ids =
 let is_childless r =
   negb (is_elem r)
 
+(** val unlink : (id -> nrec) -> id -> id -> id -> nrec **)
+
+let unlink f p c =
+  let f1 = upd f p (with_kids (f p) (remove_first c (f p).kids)) in
+  let c0 = f1 c in
+  let f2 =
+    match c0.next with
+    | Some nx -> upd f1 nx (with_prev (f1 nx) c0.prev)
+    | None -> f1
+  in
+  let f3 =
+    match c0.prev with
+    | Some pv -> upd f2 pv (with_next (f2 pv) c0.next)
+    | None -> f2
+  in
+  upd f3 c (with_parent (with_prev (with_next (f3 c) None) None) None)
+
 (** val remove_child : heap -> id -> id -> res **)
 
 let remove_child h p c =
@@ -243,22 +255,7 @@ let remove_child h p c =
   else (match index_of c p0.kids with
         | Some _ ->
           let sub = subtree_ids h c in
-          let h1 = setf h p (fun r -> with_kids r (remove_first c r.kids)) in
-          let c0 = h1.nodes c in
-          let h2 =
-            match c0.next with
-            | Some nx -> setf h1 nx (fun r -> with_prev r c0.prev)
-            | None -> h1
-          in
-          let h3 =
-            match c0.prev with
-            | Some pv -> setf h2 pv (fun r -> with_next r c0.next)
-            | None -> h2
-          in
-          let h4 =
-            setf h3 c (fun r ->
-              with_parent (with_prev (with_next r None) None) None)
-          in
+          let h4 = set_nodes h (unlink h.nodes p c) in
           let h5 =
             if (&&) (h4.nodes p).owner (is_elem (h4.nodes c))
             then remove_from_caches h4 sub
@@ -287,6 +284,20 @@ let adopt h p c =
   let h1 = set_owner h c o in
   if (&&) o (is_elem (h1.nodes c)) then rebuild_caches h1 c else h1
 
+(** val link_last : (id -> nrec) -> id -> id -> id -> nrec **)
+
+let link_last f p c =
+  let ks = (f p).kids in
+  let f2 =
+    match last_opt ks with
+    | Some l ->
+      let f1 = upd f c (with_prev (f c) (Some l)) in
+      upd f1 l (with_next (f1 l) (Some c))
+    | None -> f
+  in
+  let f3 = upd f2 p (with_kids (f2 p) (app (f2 p).kids (c :: []))) in
+  upd f3 c (with_next (with_parent (f3 c) (Some p)) None)
+
 (** val append_child : heap -> id -> id -> res **)
 
 let append_child h p c =
@@ -296,19 +307,26 @@ let append_child h p c =
   else bind_res
          (match (h.nodes c).parent with
           | Some op0 -> remove_child h op0 c
-          | None -> ROk h) (fun h1 ->
-         let ks = (h1.nodes p).kids in
-         let h2 =
-           match last_opt ks with
-           | Some l ->
-             setf (setf h1 c (fun r -> with_prev r (Some l))) l (fun r ->
-               with_next r (Some c))
-           | None -> h1
-         in
-         let h3 = setf h2 p (fun r -> with_kids r (app r.kids (c :: []))) in
-         let h4 = setf h3 c (fun r -> with_next (with_parent r (Some p)) None)
-         in
-         ROk (adopt h4 p c))
+          | None -> ROk h) (fun h1 -> ROk
+         (adopt (set_nodes h1 (link_last h1.nodes p c)) p c))
+
+(** val link_before : (id -> nrec) -> id -> id -> id -> nat -> id -> nrec **)
+
+let link_before f p c r i =
+  let f2 = upd f p (with_kids (f p) (insert_at i c (f p).kids)) in
+  let f3 = upd f2 c (with_next (f2 c) (Some r)) in
+  let f4 = upd f3 r (with_prev (f3 r) (Some c)) in
+  let f5 =
+    match i with
+    | O -> upd f4 c (with_prev (f4 c) None)
+    | S i' ->
+      (match nth_error (f p).kids i' with
+       | Some pv ->
+         let g = upd f4 pv (with_next (f4 pv) (Some c)) in
+         upd g c (with_prev (g c) (Some pv))
+       | None -> f4)
+  in
+  upd f5 c (with_parent (f5 c) (Some p))
 
 (** val insert_before : heap -> id -> id -> id option -> res **)
 
@@ -328,25 +346,9 @@ let insert_before h p c ref =
                      | None -> ROk h) (fun h1 ->
                     match index_of r (h1.nodes p).kids with
                     | Some i ->
-                      let h2 =
-                        setf h1 p (fun x ->
-                          with_kids x (insert_at i c x.kids))
-                      in
-                      let h3 = setf h2 c (fun x -> with_next x (Some r)) in
-                      let h4 = setf h3 r (fun x -> with_prev x (Some c)) in
-                      let h5 =
-                        match i with
-                        | O -> setf h4 c (fun x -> with_prev x None)
-                        | S i' ->
-                          (match nth_error (h1.nodes p).kids i' with
-                           | Some pv ->
-                             setf
-                               (setf h4 pv (fun x -> with_next x (Some c))) c
-                               (fun x -> with_prev x (Some pv))
-                           | None -> h4)
-                      in
-                      let h6 = setf h5 c (fun x -> with_parent x (Some p)) in
-                      ROk (adopt h6 p c)
+                      ROk
+                        (adopt (set_nodes h1 (link_before h1.nodes p c r i))
+                          p c)
                     | None -> RRaise (NotFoundErr, h1))
            | None -> RRaise (NotFoundErr, h))
         | None -> append_child h p c)
@@ -367,12 +369,14 @@ let new_node h k =
 (** val add_text : heap -> id -> bool -> bool -> bool -> res **)
 
 let add_text h p allowed empty cdata =
-  if negb allowed
-  then RRaise (IllegalText, h)
-  else if (&&) empty (negb cdata)
-       then ROk h
-       else let (h1, t) = new_node h (if cdata then KCData else KText) in
-            append_child h1 p t
+  if negb (is_elem (h.nodes p))
+  then RRaise (AttributeErr, h)
+  else if negb allowed
+       then RRaise (IllegalText, h)
+       else if (&&) empty (negb cdata)
+            then ROk h
+            else let (h1, t) = new_node h (if cdata then KCData else KText) in
+                 append_child h1 p t
 
 (** val get_elements_by_type : heap -> nat -> id list **)
 
